@@ -296,5 +296,7 @@ func runC16(c *core.Ctx) {
 		}
 		c.Check(good, "R3", "text/HandleWrite/string-unchanged", p.Pos(thw.Pos()), "a string message is forwarded as strings.NewReader of itself", "the text encoder does not forward the string message itself through strings.NewReader")
 	}
-	importObligations(c, runC14, "R4", func(o *core.Obligation) bool { return strings.Contains(o.Key, "conversion/Must") || strings.Contains(o.Key, "conversion/default") })
+	importObligations(c, runC14, "R4", func(o *core.Obligation) bool {
+		return strings.Contains(o.Key, "conversion/Must") || strings.Contains(o.Key, "conversion/default")
+	})
 }
